@@ -615,13 +615,14 @@ class Rewriter:
             b = b[:cpos] + '    self.len = %s.local_len; /* R16: Drop of the SetLenOnDrop guard */\n        ' % gname + b[cpos:]
             self.fired('R16:guard-drop-explicit')
         # R23: `for PAT in ITER { BODY }` over a by-value iterator is by definition `loop { match ITER.next() { Some(PAT) => BODY, None => break } }`
-        fm = re.search(r'\bfor (\w+) in (iter)\s*\{', mask(b))
+        fm = re.search(r'\bfor (\w+) in (iter|range_slice)\s*\{', mask(b))
         if fm:
             o = fm.end() - 1
             cpos = match_close(mask(b), o)
             body = b[o + 1:cpos]
+            src_it = fm.group(2) if fm.group(2) == 'iter' else fm.group(2) + '.iter()'     # a slice is iterated through `<[T]>::iter`
             b = (b[:fm.start()] + 'let mut %s__it = %s;\n        loop {\n            match %s__it.next() {\n                Some(%s) => {%s}\n                None => { break; }\n            }\n        }'
-                 % (fm.group(2), fm.group(2), fm.group(2), fm.group(1), body) + b[cpos + 1:])
+                 % (fm.group(2), src_it, fm.group(2), fm.group(1), body) + b[cpos + 1:])
             self.fired('R23:for-over-iterator')
         # raw pointer primitives
         b = self.map_calls(b, r'(?<![\w.:])ptr::write', lambda m_, a: 'buf_write(hs, %s)' % ', '.join(a), 'R22:ptr-write')
@@ -648,10 +649,14 @@ class Rewriter:
         b = self.sub('R19:for_each-drop', r'\bself\.for_each\(drop\);',
                      'loop {\n            match self.next(hs%s) {\n                Some(x__) => {\n                    elem_drop(ds, x__);\n                }\n                None => { break; }\n            }\n        }' % extra, b)
         # R12: thread the ghost heap through the calls that take it
-        for pat in [r'\bself\.reserve', r'\bself\.buf\.reserve', r'\bself\.buf\.cap', r'\bself\.capacity', r'\bself\.append_elements',
-                    r'\bself\.extend_from_slice_copy_unchecked', r'\b\w+\.set_len', r'\bself\.push', r'\bself\.extend(?!_)', r'\bVecM::with_capacity_in', r'\bRawVecM::with_capacity_in']:
-            b = self.map_calls(b, pat, lambda m_, a: None if (a and a[0] == 'hs') else '%s(%s)' % (m_.group(0).rstrip('(').rstrip(), ', '.join(['hs'] + a)), 'R12:thread-heap')
-        b = self.map_calls(b, r'\bself\.truncate', lambda m_, a: None if (a and a[0] == 'hs') else 'self.truncate(hs, ds, %s)' % ', '.join(a), 'R12:thread-heap')
+        thread = lambda extra: (lambda m_, a: None if (a and a[0] == 'hs') else '%s(%s)' % (m_.group(0).rstrip('(').rstrip(), ', '.join(extra + a)))
+        for name in ['reserve', 'cap', 'capacity', 'append_elements', 'extend_from_slice_copy_unchecked', 'extend_from_slice_copy', 'extend_from_slice',
+                     'set_len', 'push', 'extend', 'insert', 'remove', 'swap_remove', 'split_off', 'pop', 'append']:
+            b = self.map_calls(b, r'(?<![\w:])[a-z_][\w.]*\.%s' % name, thread(['hs']), 'R12:thread-heap')
+        for name in ['VecM::with_capacity_in', 'RawVecM::with_capacity_in']:
+            b = self.map_calls(b, r'\b%s' % name, thread(['hs']), 'R12:thread-heap')
+        for name in ['truncate', 'clear']:
+            b = self.map_calls(b, r'(?<![\w:])[a-z_][\w.]*\.%s' % name, thread(['hs', 'ds']), 'R12:thread-heap')
         b = self.sub('R22:slice-cloned-iter', r'\bother\.iter\(\)\.cloned\(\)', 'slice_cloned_iter(hs, other)', b)
         return b
 
@@ -685,11 +690,7 @@ class Rewriter:
         b = self.sub('R25:temp-drain-drop', r'\bself_vec\.drain\(([^;]*?)\.\.([^;]*)\);',
                      r'{ let mut d__ = self_vec.drain(hs, RangeM { start: Included(\1), end: Excluded(\2) }); d__.drop(hs, ds, self_vec); }', b)
         # R12: thread the ghost heap (and the destructor log) through the Vec<u8> calls
-        for pat in [r'\bself\.vec\.reserve', r'\bself\.vec\.push', r'\bself\.vec\.extend_from_slice_copy', r'\bself\.vec\.extend_from_slice(?!_)',
-                    r'\bself\.vec\.split_off', r'\bself\.insert_bytes']:
-            b = self.map_calls(b, pat, lambda m_, a: None if (a and a[0] == 'hs') else '%s(%s)' % (m_.group(0).rstrip('(').rstrip(), ', '.join(['hs'] + a)), 'R12:thread-heap')
-        for pat in [r'\bself\.vec\.truncate', r'\bself\.vec\.clear']:
-            b = self.map_calls(b, pat, lambda m_, a: None if (a and a[0] == 'hs') else '%s(%s)' % (m_.group(0).rstrip('(').rstrip(), ', '.join(['hs', 'ds'] + a)), 'R12:thread-heap')
+        b = self.map_calls(b, r'\bself\.insert_bytes', lambda m_, a: None if (a and a[0] == 'hs') else 'self.insert_bytes(%s)' % ', '.join(['hs'] + a), 'R12:thread-heap')
         return b
 
     # R20: RawVec growth -- the arena seen through its Alloc interface as a ghost "buffer owned" state -----------------
